@@ -3,8 +3,8 @@
    stack maps, declared pointer bitmaps).  Collection, stack copying, preemption and write barriers are not modelled.
    Only statements, closed by `exact`, with Print Assumptions beneath each. *)
 From Coq Require Import NArith ZArith List String.
-From SV.Gen Require Import PtrMaps.
-From SV.Loader Require Import Pcdata StackMap PtrMapsProofs.
+From SV.Gen Require Import PtrMaps WbStores.
+From SV.Loader Require Import Pcdata StackMap PtrMapsProofs WbCoverage.
 Import ListNotations.
 
 (* Pcdata.MarshalBinary followed by the runtime's pcvalue returns, at every covered pc, the value of the enclosing range -
@@ -69,3 +69,16 @@ Theorem C10_local_maps_empty :
   jitdec_localPtrs = [] /\ jitdec_localPtrs_generic = [] /\ vars_LocalPtrs = [] /\ vars_LocalPtrs_generic = [].
 Proof. exact local_maps_empty. Qed.
 Print Assumptions C10_local_maps_empty.
+
+(* write-barrier coverage of the three x86 emitters, over the store table regenerated from their source: every store to a
+   non-stack destination is inside a barrier helper, narrower than a pointer, an immediate, a byte of the encoder's output
+   buffer, or one of the listed and categorised exceptions (exact list, exact multiplicities); the categories themselves
+   are reading-based arguments, not proofs *)
+Theorem C10_wb_coverage :
+  (forall r, In r stores ->
+     r_class r = "Stack"%string \/ is_helper (r_fn r) = true \/ narrow (r_mnem r) = true \/ prefix "jit.Imm(" (r_src r) = true \/
+     r_class r = "Heap _RP"%string \/ exists n c, In (key_of r, n, c) exceptions) /\
+  (forall k n c, In (k, n, c) exceptions -> count_key k = n) /\
+  param_sites_ok = true /\ helpers_ok = true.
+Proof. exact wb_coverage. Qed.
+Print Assumptions C10_wb_coverage.
